@@ -843,7 +843,7 @@ def prop_broker(line, impl, model):
             return "POST /client answered %s to a body of %d bytes (limit %d), not 400" % (post[:60], len(body), LIMIT)
     elif body[:1] != b"{":
         if post != ipc_reply:
-            return "POST /client answered %s, IPC.ClientOffers gave %s for the same poll" % (post[:100], ipc_reply[:100])
+            return "POST /client answered %s (%d hex chars), IPC.ClientOffers gave %s (%d) for the same poll" % (post[:60] + ".." + post[-12:], len(post), ipc_reply[:60] + ".." + ipc_reply[-12:], len(ipc_reply))
     # AMP side
     if not path.startswith(b"/amp/client/"):
         return None if ampr.startswith("500") else "a path outside /amp/client/ was served: " + ampr[:80]
